@@ -39,7 +39,7 @@ macro_rules! impl_scalar_int {
             #[inline] fn to_bits64(self) -> u64 { self as u64 }
             #[inline] fn from_bits64(b: u64) -> Self { b as $t }
             #[inline] fn wrap(self) -> Val { Val::$k(self) }
-            #[inline] fn unwrap(v: &Val) -> Self { match v { Val::$k(x) => *x, o => panic!("harness: expected {} got {:?}", stringify!($k), o) } }
+            #[inline] fn unwrap(v: &Val) -> Self { match v { Val::$k(x) => *x, o => mismatch(stringify!($k), o) } }
         }
     )*};
 }
@@ -63,7 +63,7 @@ impl Scalar for f32 {
     fn unwrap(v: &Val) -> Self {
         match v {
             Val::F32(x) => *x,
-            o => panic!("harness: expected F32 got {:?}", o),
+            o => mismatch("F32", o),
         }
     }
 }
@@ -85,7 +85,7 @@ impl Scalar for f64 {
     fn unwrap(v: &Val) -> Self {
         match v {
             Val::F64(x) => *x,
-            o => panic!("harness: expected F64 got {:?}", o),
+            o => mismatch("F64", o),
         }
     }
 }
@@ -107,7 +107,7 @@ impl Scalar for bool {
     fn unwrap(v: &Val) -> Self {
         match v {
             Val::Bool(x) => *x,
-            o => panic!("harness: expected Bool got {:?}", o),
+            o => mismatch("Bool", o),
         }
     }
 }
@@ -211,7 +211,7 @@ macro_rules! define_all {
             }
             impl V for $T {
                 #[inline] fn into_val(self) -> Val { Val::$T(self) }
-                #[inline] fn from_val(v: &Val) -> Self { match v { Val::$T(x) => *x, o => panic!("harness: expected {} got {:?}", stringify!($T), o) } }
+                #[inline] fn from_val(v: &Val) -> Self { match v { Val::$T(x) => *x, o => mismatch(stringify!($T), o) } }
             }
         )*
 
@@ -252,6 +252,13 @@ fn bits_of<T: GlamTy>(x: &T) -> (TyId, Vec<u64>) {
     (T::ID, x.to_elems().into_iter().map(|e| e.to_bits64()).collect())
 }
 
+/// the wrong-variant path of every `from_val`, out of line: it sits in ~10 000 generated call sites
+#[cold]
+#[inline(never)]
+pub fn mismatch(exp: &str, got: &Val) -> ! {
+    panic!("harness: expected {} got {:?}", exp, got)
+}
+
 /// Conversion between Rust values of the vocabulary and `Val`.
 pub trait V: Sized {
     fn into_val(self) -> Val;
@@ -283,7 +290,7 @@ impl V for String {
     fn from_val(v: &Val) -> Self {
         match v {
             Val::Str(s) => s.clone(),
-            o => panic!("harness: expected Str got {:?}", o),
+            o => mismatch("Str", o),
         }
     }
 }
@@ -294,7 +301,7 @@ impl V for EulerRot {
     fn from_val(v: &Val) -> Self {
         match v {
             Val::Euler(e) => *e,
-            o => panic!("harness: expected Euler got {:?}", o),
+            o => mismatch("Euler", o),
         }
     }
 }
@@ -305,7 +312,7 @@ impl<T: V, const N: usize> V for [T; N] {
     fn from_val(v: &Val) -> Self {
         match v {
             Val::Arr(xs) if xs.len() == N => core::array::from_fn(|i| T::from_val(&xs[i])),
-            o => panic!("harness: expected Arr[{}] got {:?}", N, o),
+            o => mismatch("Arr", o),
         }
     }
 }
@@ -316,7 +323,7 @@ impl<T: V> V for Vec<T> {
     fn from_val(v: &Val) -> Self {
         match v {
             Val::Slice(xs) => xs.iter().map(T::from_val).collect(),
-            o => panic!("harness: expected Slice got {:?}", o),
+            o => mismatch("Slice", o),
         }
     }
 }
@@ -327,7 +334,7 @@ impl<T: V> V for Option<T> {
     fn from_val(v: &Val) -> Self {
         match v {
             Val::Opt(x) => x.as_ref().map(|b| T::from_val(b)),
-            o => panic!("harness: expected Opt got {:?}", o),
+            o => mismatch("Opt", o),
         }
     }
 }
@@ -336,7 +343,7 @@ macro_rules! impl_v_tuple {
         impl<$($T: V),+> V for ($($T,)+) {
             fn into_val(self) -> Val { Val::Tup(vec![$( self.$n.into_val() ),+]) }
             fn from_val(v: &Val) -> Self {
-                match v { Val::Tup(xs) => ($( $T::from_val(&xs[$n]), )+), o => panic!("harness: expected Tup got {:?}", o) }
+                match v { Val::Tup(xs) => ($( $T::from_val(&xs[$n]), )+), o => mismatch("Tup", o) }
             }
         }
     )*};
